@@ -16,12 +16,22 @@ pub fn p_harmonic(n: u64, p: u32) -> f64 {
 
 /// Returns the PMF of the hypergeometric distribution.
 pub fn hypergeometric_pmf(size: u64, successes: u64, draws: u64, observed: u64) -> f64 {
-    if observed > draws {
+    let failures = size - successes;
+
+    if observed > draws || observed > successes || draws - observed > failures {
         0.0
     } else {
-        binomial(successes, observed) * binomial(size - successes, draws - observed)
-            / binomial(size, draws)
+        // The binomial coefficients themselves overflow f64 beyond roughly a thousand
+        // chromosomes, so the ratio is formed in log-space and exponentiated once
+        (ln_binomial(successes, observed) + ln_binomial(failures, draws - observed)
+            - ln_binomial(size, draws))
+        .exp()
     }
+}
+
+/// Returns the natural logarithm of the binomial coefficient, assuming `k <= n`.
+fn ln_binomial(n: u64, k: u64) -> f64 {
+    ln_factorial(n) - ln_factorial(k) - ln_factorial(n - k)
 }
 
 /// Returns the binomial coefficient.
